@@ -36,7 +36,9 @@
 (*                  utility records <<m, $?>> and exits with n             *)
 (*    exec missing / noexec / none                                         *)
 (*    return [n], exit [n], break n, continue n                            *)
-(*    trap a        `trap 'probe m[; exit [a]]' EXIT`                      *)
+(*    trap a        `trap 'probe m[; exit a]' EXIT` or, for the operand-less *)
+(*                  exit, `trap 'probe m; ! :; exit' EXIT` (the `! :`      *)
+(*                  makes $? inside the action differ from the $? before)  *)
 (*                                                                         *)
 (* A program yields the sequence of recorded <<marker, $?>> pairs, the     *)
 (* final exit status, the way the shell process ended, or is classified    *)
@@ -106,7 +108,8 @@ WellFormed(toks) == Len(toks) > 0 /\ Open(toks, 1, 1) = 0
 (*   fn    function table, c tick counter, fuel, en error-symbol counter   *)
 (*   pp    number of positional parameters ($#)                            *)
 (*   trap  EXIT trap of this environment: m marker (-1: none), a action    *)
-(*         (-2: `probe m`, -1: `probe m; exit`, n >= 0: `probe m; exit n`) *)
+(*         (-2: `probe m`, -1: `probe m; ! :; exit`, n >= 0: `probe m;     *)
+(*         exit n`)                                                        *)
 (*   nt    number of EXIT trap actions run so far (all environments)       *)
 (*   e     errexit option, fired: terminating because of errexit           *)
 (*   xw    why the environment terminates ("exit", "errexit", "error",     *)
@@ -350,7 +353,7 @@ Ev(t, S, C) ==
 (***************************************************************************)
 (* A whole program.  Options of a run: e errexit; t EXIT trap set before   *)
 (* the program (0: none, 1: `probe 0`, 2: `probe 0; exit 7`,               *)
-(* 3: `probe 0; exit`).                                                    *)
+(* 3: `probe 0; ! :; exit`).                                               *)
 (*   x = "none"  the shell reached the end of its input                    *)
 (*       "exit"  it terminated earlier (exit, errexit, shell error)        *)
 (*       "exec"  its process image was replaced                            *)
